@@ -18,7 +18,7 @@ CONSTANTS Ver,          \* "37" | "38" | "39" | "310"
           MaxPrefix,    \* EXTENDED_ARG prefixes per instruction
           Classes,      \* operand classes the environment may emit
           ByteVals,     \* operand bytes
-          Scope,        \* "module" | "shadow" | "dup" | "fn" (function, first constant None) | "fndoc" (function with a docstring)
+          Scope,        \* "module" | "shadow" | "dup" | "wide" (= module, small class set) | "fn" (function, first constant None) | "fndoc" (function with a docstring)
           Emit
 
 D == INSTANCE Decode
